@@ -95,7 +95,7 @@ def toString (ord : List Bytes → List Bytes) : Value → Option Bytes
   | .null => some sNull
   | .bool b => some (if b then sTrue else sFalse)
   | .int i => some (F64.intDigits i.toInt)
-  | .float f => some f.format
+  | .float f => some f.formatJS
   | .str s => some s
   | .list _ xs => match listItems ord xs with
     | none => none
